@@ -134,7 +134,7 @@ func (sm *SessionManager) newSessionFromConn(connect *packets.ConnectPacket) (se
   flag allocates
   requires connect != nil
   modifies sessOf
-  ensures sess != nil && fresh(sess) && sessOf == old(store(sessOf, connect.ClientIdentifier, ref(sess)))
+  ensures sess != nil && fresh(sess) && sess.info != nil && sessOf == old(store(sessOf, connect.ClientIdentifier, ref(sess)))
 
 func (s *Session) close()
   trusted
@@ -144,6 +144,7 @@ func (s *Session) close()
 func (b *Broker) setSession(client *Client, connect *packets.ConnectPacket)
   requires b != nil && b.sessMgr != nil && client != nil && connect != nil
   modifies client.session, sessOf, closedSess
+  ensures the-client-has-a-session-with-its-record: client.session != nil && client.session.info != nil
   ensures previous-session-resumed-iff-both-persistent: let prev = old(sessOf[connect.ClientIdentifier]) in ((ref(client.session) == prev && prev != 0) <==> (!connect.CleanSession && prev != 0 && !old(ptr(prev, "*Session").info.CleanFlag)))
   ensures resumed-session-untouched: let prev = old(sessOf[connect.ClientIdentifier]) in (ref(client.session) == prev && prev != 0 ==> sessOf == old(sessOf) && closedSess == old(closedSess))
   ensures otherwise-previous-discarded-and-new-registered: let prev = old(sessOf[connect.ClientIdentifier]) in (!(ref(client.session) == prev && prev != 0) ==> client.session != nil && fresh(client.session) && sessOf[connect.ClientIdentifier] == ref(client.session) && (prev != 0 ==> closedSess[prev]))
@@ -168,18 +169,43 @@ func (sm *SessionManager) delLocal(clientID string)
 func (sm *SessionManager) delDB(clientID string)
   trusted
 func (s *Session) allSubscribes() (topics []string, qoss []byte, err error)
-  trusted
   flag allocates
-func (mgr *TopicManager) unsubscribe(topics []string, clientID string) (err error)
+  requires s != nil && s.info != nil
+  ensures one-qos-per-filter: len(qoss) == len(topics)
+  invariant[1] len(sub) == len(qos) && ((sub == nil && cap(sub) == 0) || fresh(sub)) && ((qos == nil && cap(qos) == 0) || fresh(qos))
+// ---- C14: a SUBSCRIBE / UNSUBSCRIBE request changes exactly the listed filters of the requesting client ----
+// trieSub is the abstract content of the subscription trie (filter -> client id -> subscribed). insert and remove
+// are tied to it by their trusted contracts (the trie itself is heap-recursive, outside the engine's subset; its
+// agreement with MQTT 3.1.1 matching is the bounded trie check); subscribe and unsubscribe are verified against them.
+ghost var trieSub mmap[string]mmap[string]bool
+func (mgr *TopicManager) insert(topic string, qos byte, clientID string) (err error)
   trusted
-  modifies unsubCount
+  modifies trieSub
+  ensures err != nil ==> trieSub == old(trieSub)
+  ensures err == nil ==> (forall f string; c string :: trieSub[f][c] == ((f == topic && c == clientID) || old(trieSub[f][c])))
+func (mgr *TopicManager) remove(topic string, clientID string) (err error)
+  trusted
+  modifies trieSub
+  ensures err != nil ==> trieSub == old(trieSub)
+  ensures err == nil ==> (forall f string; c string :: trieSub[f][c] == (old(trieSub[f][c]) && !(f == topic && c == clientID)))
+
+func (mgr *TopicManager) unsubscribe(topics []string, clientID string) (err error)
+  requires mgr != nil
+  modifies unsubCount, trieSub
   ensures unsubCount == old(unsubCount) + 1
+  ensures never-subscribes: forall f string; c string :: trieSub[f][c] ==> old(trieSub[f][c])
+  ensures only-the-listed-filters-of-this-client-go: forall f string; c string :: old(trieSub[f][c]) && !trieSub[f][c] ==> c == clientID && (exists k int :: 0 <= k && k < len(topics) && topics[k] == f)
+  ensures all-listed-filters-are-gone: err == nil ==> (forall k int :: 0 <= k && k < len(topics) ==> !trieSub[topics[k]][clientID])
+  ghost at entry: unsubCount := unsubCount + 1
+  invariant[1] forall f string; c string :: trieSub[f][c] ==> old(trieSub[f][c])
+  invariant[1] forall f string; c string :: old(trieSub[f][c]) && !trieSub[f][c] ==> c == clientID && (exists k int :: 0 <= k && k < idx$1 && topics[k] == f)
+  invariant[1] forall k int :: 0 <= k && k < idx$1 ==> !trieSub[topics[k]][clientID]
 func (c *Client) close()
   trusted
 
 func (c *Client) closeAndDelSession()
   requires c != nil && c.broker != nil && c.broker.sessMgr != nil && c.broker.topicMgr != nil && c.session != nil && c.session.info != nil
-  modifies sessOf, closedSess, unsubCount, gCur
+  modifies trieSub, sessOf, closedSess, unsubCount, gCur
   ensures teardown-of-a-superseded-connection-touches-nothing-of-the-successor: gCur != 0 && gCur != ref(c) ==> sessOf == old(sessOf) && closedSess == old(closedSess) && unsubCount == old(unsubCount)
   ghost at call[1] getClient: gCur := ref(c)
 
@@ -191,7 +217,15 @@ func (b *Broker) connectionValidation(connect *packets.ConnectPacket, conn net.C
 func (s *Session) updateEGName(egName string, name string)
   trusted
 func (mgr *TopicManager) subscribe(topics []string, qoss []byte, clientID string) (err error)
-  trusted
+  requires mgr != nil
+  requires one-qos-per-filter: len(qoss) >= len(topics)
+  modifies trieSub
+  ensures never-unsubscribes: forall f string; c string :: old(trieSub[f][c]) ==> trieSub[f][c]
+  ensures only-the-listed-filters-of-this-client-are-added: forall f string; c string :: trieSub[f][c] && !old(trieSub[f][c]) ==> c == clientID && (exists k int :: 0 <= k && k < len(topics) && topics[k] == f)
+  ensures an-accepted-request-subscribes-every-listed-filter: err == nil ==> (forall k int :: 0 <= k && k < len(topics) ==> trieSub[topics[k]][clientID])
+  invariant[1] forall f string; c string :: old(trieSub[f][c]) ==> trieSub[f][c]
+  invariant[1] forall f string; c string :: trieSub[f][c] && !old(trieSub[f][c]) ==> c == clientID && (exists k int :: 0 <= k && k < idx$1 && topics[k] == f)
+  invariant[1] forall k int :: 0 <= k && k < idx$1 ==> trieSub[topics[k]][clientID]
 func (c *Client) readLoop()
   trusted
 func (c *Client) writeLoop()
@@ -210,7 +244,7 @@ ghost var hcSubscribed int  // topic list handed to TopicManager.subscribe (0: n
 ghost var hcWrote bool      // CONNACK written
 
 func (b *Broker) handleConn(conn net.Conn)
-  modifies allof("ghost:github.com/megaease/easegress/pkg/object/mqttproxy.closedSess"), allof("ghost:github.com/megaease/easegress/pkg/object/mqttproxy.hcCid"), allof("ghost:github.com/megaease/easegress/pkg/object/mqttproxy.hcClient"), allof("ghost:github.com/megaease/easegress/pkg/object/mqttproxy.hcNTopics"), allof("ghost:github.com/megaease/easegress/pkg/object/mqttproxy.hcRefused"), allof("ghost:github.com/megaease/easegress/pkg/object/mqttproxy.hcRegisteredAs"), allof("ghost:github.com/megaease/easegress/pkg/object/mqttproxy.hcSubscribed"), allof("ghost:github.com/megaease/easegress/pkg/object/mqttproxy.hcSubscribedFor"), allof("ghost:github.com/megaease/easegress/pkg/object/mqttproxy.hcTopics"), allof("ghost:github.com/megaease/easegress/pkg/object/mqttproxy.hcValid"), allof("ghost:github.com/megaease/easegress/pkg/object/mqttproxy.hcWrote"), allof("ghost:github.com/megaease/easegress/pkg/object/mqttproxy.sessOf"), allof("github.com/eclipse/paho.mqtt.golang/packets.ConnackPacket.ReturnCode"), allof("map<string,*object/mqttproxy.Client>#card"), allof("map<string,*object/mqttproxy.Client>#val"), allof("map<string,*object/mqttproxy.Client>#dom")
+  modifies trieSub, allof("ghost:github.com/megaease/easegress/pkg/object/mqttproxy.closedSess"), allof("ghost:github.com/megaease/easegress/pkg/object/mqttproxy.hcCid"), allof("ghost:github.com/megaease/easegress/pkg/object/mqttproxy.hcClient"), allof("ghost:github.com/megaease/easegress/pkg/object/mqttproxy.hcNTopics"), allof("ghost:github.com/megaease/easegress/pkg/object/mqttproxy.hcRefused"), allof("ghost:github.com/megaease/easegress/pkg/object/mqttproxy.hcRegisteredAs"), allof("ghost:github.com/megaease/easegress/pkg/object/mqttproxy.hcSubscribed"), allof("ghost:github.com/megaease/easegress/pkg/object/mqttproxy.hcSubscribedFor"), allof("ghost:github.com/megaease/easegress/pkg/object/mqttproxy.hcTopics"), allof("ghost:github.com/megaease/easegress/pkg/object/mqttproxy.hcValid"), allof("ghost:github.com/megaease/easegress/pkg/object/mqttproxy.hcWrote"), allof("ghost:github.com/megaease/easegress/pkg/object/mqttproxy.sessOf"), allof("github.com/eclipse/paho.mqtt.golang/packets.ConnackPacket.ReturnCode"), allof("map<string,*object/mqttproxy.Client>#card"), allof("map<string,*object/mqttproxy.Client>#val"), allof("map<string,*object/mqttproxy.Client>#dom")
   requires b != nil && b.spec != nil && b.sessMgr != nil && b.topicMgr != nil && conn != nil
   ensures an-admitted-connection-is-registered-under-its-id: hcValid && !hcRefused ==> hcRegisteredAs == hcClient
   ensures a-resumed-sessions-subscriptions-are-registered-again: hcValid && !hcRefused && hcWrote && hcNTopics > 0 ==> hcSubscribed == hcTopics && hcSubscribedFor == hcCid
@@ -287,7 +321,7 @@ func (s *Session) unsubscribe(topics []string) (err error)
 
 func processSubscribe(c *Client, p packets.ControlPacket)
   flag allocates
-  modifies allof("ghost:github.com/megaease/easegress/pkg/object/mqttproxy.psCid"), allof("ghost:github.com/megaease/easegress/pkg/object/mqttproxy.psQoss"), allof("ghost:github.com/megaease/easegress/pkg/object/mqttproxy.psRecorded"), allof("ghost:github.com/megaease/easegress/pkg/object/mqttproxy.psRouted"), allof("ghost:github.com/megaease/easegress/pkg/object/mqttproxy.psSessQoss"), allof("ghost:github.com/megaease/easegress/pkg/object/mqttproxy.psSessTopics"), allof("ghost:github.com/megaease/easegress/pkg/object/mqttproxy.psTopics"), allof("ghostf:github.com/megaease/easegress/pkg/object/mqttproxy.Session.storedDom"), allof("ghostf:github.com/megaease/easegress/pkg/object/mqttproxy.Session.storedVal"), allof("map<string,int>#card"), allof("map<string,int>#dom"), allof("map<string,int>#val")
+  modifies trieSub, allof("ghost:github.com/megaease/easegress/pkg/object/mqttproxy.psCid"), allof("ghost:github.com/megaease/easegress/pkg/object/mqttproxy.psQoss"), allof("ghost:github.com/megaease/easegress/pkg/object/mqttproxy.psRecorded"), allof("ghost:github.com/megaease/easegress/pkg/object/mqttproxy.psRouted"), allof("ghost:github.com/megaease/easegress/pkg/object/mqttproxy.psSessQoss"), allof("ghost:github.com/megaease/easegress/pkg/object/mqttproxy.psSessTopics"), allof("ghost:github.com/megaease/easegress/pkg/object/mqttproxy.psTopics"), allof("ghostf:github.com/megaease/easegress/pkg/object/mqttproxy.Session.storedDom"), allof("ghostf:github.com/megaease/easegress/pkg/object/mqttproxy.Session.storedVal"), allof("map<string,int>#card"), allof("map<string,int>#dom"), allof("map<string,int>#val")
   requires c != nil && c.broker != nil && c.broker.topicMgr != nil && c.session != nil && c.session.info != nil && c.session.info.Topics != nil
   requires typeIs(p, "*packets.SubscribePacket") && ifaceVal(p) != 0
   requires a-decoded-SUBSCRIBE-has-one-qos-per-filter: len(ptr(ifaceVal(p), "*packets.SubscribePacket").Qoss) == len(ptr(ifaceVal(p), "*packets.SubscribePacket").Topics)
@@ -306,7 +340,7 @@ func processSubscribe(c *Client, p packets.ControlPacket)
 
 func processUnsubscribe(c *Client, p packets.ControlPacket)
   flag allocates
-  modifies allof("ghost:github.com/megaease/easegress/pkg/object/mqttproxy.psCid"), allof("ghost:github.com/megaease/easegress/pkg/object/mqttproxy.psRecorded"), allof("ghost:github.com/megaease/easegress/pkg/object/mqttproxy.psRouted"), allof("ghost:github.com/megaease/easegress/pkg/object/mqttproxy.psSessTopics"), allof("ghost:github.com/megaease/easegress/pkg/object/mqttproxy.psTopics"), allof("ghost:github.com/megaease/easegress/pkg/object/mqttproxy.unsubCount"), allof("ghostf:github.com/megaease/easegress/pkg/object/mqttproxy.Session.storedDom"), allof("ghostf:github.com/megaease/easegress/pkg/object/mqttproxy.Session.storedVal"), allof("map<string,int>#card"), allof("map<string,int>#dom"), allof("map<string,int>#val")
+  modifies trieSub, allof("ghost:github.com/megaease/easegress/pkg/object/mqttproxy.psCid"), allof("ghost:github.com/megaease/easegress/pkg/object/mqttproxy.psRecorded"), allof("ghost:github.com/megaease/easegress/pkg/object/mqttproxy.psRouted"), allof("ghost:github.com/megaease/easegress/pkg/object/mqttproxy.psSessTopics"), allof("ghost:github.com/megaease/easegress/pkg/object/mqttproxy.psTopics"), allof("ghost:github.com/megaease/easegress/pkg/object/mqttproxy.unsubCount"), allof("ghostf:github.com/megaease/easegress/pkg/object/mqttproxy.Session.storedDom"), allof("ghostf:github.com/megaease/easegress/pkg/object/mqttproxy.Session.storedVal"), allof("map<string,int>#card"), allof("map<string,int>#dom"), allof("map<string,int>#val")
   requires c != nil && c.broker != nil && c.broker.topicMgr != nil && c.session != nil && c.session.info != nil
   requires typeIs(p, "*packets.UnsubscribePacket") && ifaceVal(p) != 0
   ensures every-named-filter-is-unrouted-for-this-client: psRouted && psTopics == ref(ptr(ifaceVal(p), "*packets.UnsubscribePacket").Topics) && psCid == c.info.cid
